@@ -23,6 +23,14 @@ fn main() {
             s.require("batch-retried", 3000);
             s.require("two-byte-separator", 5000);
             s.require("truncated-record-present", 3000);
+            // artifacts of the libFuzzer target `file_c10` (engine E6 over E3) are replayed through the same entry
+            s.manual("fuzz-artifact", Vec::<Vec<u8>>::new(), |bytes, cx| {
+                cx.nontrivial(true);
+                match fsim::fuzz::entry(bytes, Prop::C10) {
+                    Ok(()) => Ok(()),
+                    Err(f) => cx.fail(f.sig, format!("{}; decoded case: {:?}", f.msg, fsim::fuzz::decode(bytes))),
+                }
+            });
             s.gen("histories", s.n(400_000, 12_000_000), || gen::hist(Focus::Faults), |h, cx| gen::check(h, Prop::C10, cx));
             // end to end through the real FileSet (formatting on the caller's thread, real channel and worker
             // thread): every record is exactly one formatted event, flush true => synced
